@@ -30,6 +30,7 @@ var (
 	probeArg = flag.String("probe", "", "probe file")
 	count    = flag.Int("n", 0, "number of generated cases (0 = by tier)")
 	debug    = flag.Bool("debug", false, "print invalid programs")
+	repo     = flag.String("repo", "/repo", "onflow/cadence tree under check (sources read for the purity call sites)")
 	only     = flag.String("only", "", "run only the case with this name and print it")
 )
 
@@ -42,6 +43,12 @@ func main() {
 		}
 	case *mode == "table":
 		text, probs := genTable(extractBuiltins(), loadGroundTruth(*truth))
+		sites, err := extractPuritySites(*repo)
+		if err != nil {
+			panic(err)
+		}
+		text += sitesCoq(sites)
+		probs = append(probs, siteProblems(sites)...)
 		writeIfChanged(*gen, text)
 		b, _ := json.MarshalIndent(map[string]any{"problems": probs}, "", " ")
 		if err := os.WriteFile(filepath.Join(*dir, "table.json"), b, 0o644); err != nil {
